@@ -34,6 +34,17 @@ CHECKS = [
            'whole-store snapshot equality with the model, ~40 query answers, identity invariants on the raw stores.',
       note='Trusted base: the reference model (fimmc/refmodel_graph.py, ~200 lines). Unspecified corners are three-valued (listed in '
            'evidence assumptions). After a merge only the shared backend continues (the per-graph backend documents merge as unsupported).'),
+ dict(property_id='C20', engine='E1-bfs + E3-sched', level='model_checking',
+      technique='model checking: (a) explicit-state BFS of store operation sequences with a counting lock; (b) stateless CHESS-style exploration of all thread schedules up to a preemption bound on the real store code',
+      text='(a) All sequences to depth 3/4 of ~40 store, importer and graph operations (incl. imports lacking node ids, None payloads, '
+           'duplicate ids, delete-then-reimport, garbage text) on both stores with storage.lock replaced by a counting lock: after every '
+           'call, returning or raising, the lock is free, balanced, and no lock error occurred. (b) 8 (quick) / 10 (thorough) harnesses of '
+           '2-3 real threads x 1-2 operations per store flavour run under a cooperative scheduler that owns every switch; scheduling points '
+           'sit before every shared-access bytecode instruction of the store classes and NetworkXPropertyGraph.add_node and at lock '
+           'operations; every schedule with <= 2 (quick) / <= 3 (thorough) preemptions is executed. Oracle: no thread raised, no deadlock, '
+           'allocated internal ids pairwise distinct, final content equals that of some sequential order, lock free and balanced.',
+      note='Callees outside the registered code objects (networkx, networkx_query) are atomic steps; memory-model effects below the GIL are '
+           'out of reach. Thread bodies only import and create nodes with distinct NodeIDs. One open finding (unlocked existence scan).'),
 ]
 _claimed = {c['property_id'] for c in CHECKS}
 NOT_APPLICABLE = [dict(property_id=p, reason='check not built yet in this revision (work in progress; model checking applies, see DESIGN.md)')
